@@ -34,6 +34,9 @@ fn name_json(n: &Value) -> String {
         jstr(s.as_str().unwrap())
     } else if let Some(x) = n.get("n") {
         x.to_string()
+    } else if let Some(x) = n.get("lit") {
+        // a JSON number given as its literal text (beyond 53 bits, fractions): written verbatim
+        x.as_str().unwrap().to_string()
     } else if let Some(x) = n.get("raw") {
         x.as_str().unwrap().to_string()
     } else {
